@@ -95,6 +95,12 @@ thread_local! {
     static PIPE_SCRIPT: RefCell<Option<HashMap<String, String>>> = RefCell::new(None);
     static PIPE_LOG: RefCell<Vec<String>> = RefCell::new(Vec::new());
     static PIPE_ENVS: RefCell<Vec<Vec<(String, String)>>> = RefCell::new(Vec::new());
+    static REAL_BUILTINS: RefCell<bool> = RefCell::new(false);
+}
+
+/// when set, a line that is a single builtin is not answered by the pipeline script but really run
+pub fn set_real_builtins(on: bool) {
+    REAL_BUILTINS.with(|b| *b.borrow_mut() = on);
 }
 
 /// the per-command environments (`NAME=v cmd`) of the scripted pipelines run so far
@@ -130,7 +136,7 @@ pub fn plan_key(cl: &CommandLine) -> String {
 /// Called in `core::run_pipeline` once the calculator / function / empty-line cases are
 /// decided, right before any pipe or process is created. `None` = no script installed.
 pub fn scripted_run_pipeline(_sh: &mut Shell, cl: &CommandLine, _capture: bool) -> Option<(bool, CommandResult)> {
-    if cl.is_single_and_builtin() {
+    if REAL_BUILTINS.with(|b| *b.borrow()) && cl.is_single_and_builtin() {
         // a single builtin runs in the shell process itself: let the real code do it
         return None;
     }
